@@ -22,7 +22,7 @@ def rounded_deadline(d):
 
 class FullCheck(BaseCheck):
   FOCUS = ()
-  QUICK_CASES = 320
+  QUICK_CASES = 1280
   THOROUGH_CASES = 12000
   QUICK_WALL = 50
   THOROUGH_WALL = 480
@@ -177,6 +177,11 @@ class FullCheck(BaseCheck):
         tagstr = 'c%d-%d' % (cid, rng.getrandbits(20))
         args = (ttypes.Pair(name=tagstr, n=cid, nums=[1, 2], kv={}),) if m == 'swap' else (tagstr,)
         T = rng.choice(Tset)
+        if boundary and not (w.dispatcher._open_ar is not None and w.dispatcher._open_ar.ready()) and rng.random() < 0.7:
+          # deadline on the very instant the pending open completes (connect latency, + one
+          # ping round trip on the mux stack), or one grid step around it
+          T = max(0.002, conn_lat + (0.0005 if kind == 'mux' else 0.0) + rng.choice([0.0, 0.0, 0.01, -0.01]))
+          classes.add('deadline-at-open-completion')
         rec = w.call(m, args, timeout=T)
         if not rec['open_ready_at_issue']:
           classes.add('issued-before-open')
